@@ -401,7 +401,11 @@ impl<'a> Oracle<'a> {
                 }
                 match r {
                     Ok(Ok(())) => if !open.is_empty() { fail(format!("ring numbers {:?} are left open at the end of a successful traversal", open)) } else { "OK".to_string() },
-                    Ok(Err(_)) => "OK".to_string(),
+                    Ok(Err(e)) => match parse_graph(rest) {
+                        // writing must succeed whenever the graph is well-formed and fewer than 99 closures are open
+                        Some(g2) if graph_defect(&g2).is_none() => fail(format!("traversal of a well-formed adjacency list fails with {:?} (at most {} closures open)", e, max_open)),
+                        _ => "OK".to_string(),
+                    },
                     Err(_) => if max_open >= 99 { "OK".to_string() } else { fail(format!("traversal panics at {} with at most {} closures open", imp::last_panic(), max_open)) },
                 }
             }
@@ -423,8 +427,22 @@ impl<'a> Oracle<'a> {
             }
             ["WALK", rest @ ..] => {
                 let resp = imp::do_walk(t, rest);
-                if resp.contains("panic") { return fail(format!("traversal panics: {}", first_panic(&resp))) }
-                // building from the traversal's events, and the hydrogen queries on every atom
+                if resp.contains("panic") {
+                    let open = parse_graph(rest).and_then(|g| walk_panic_open(t, g));
+                    return fail(format!("traversal panics: {} with {} ring closures open", first_panic(&resp), open.map(|n| n.to_string()).unwrap_or_else(|| "?".to_string())))
+                }
+                // the traversal driven into a Builder (then built) and into a Writer (then written), and the hydrogen
+                // queries on every atom
+                if let Some(g) = parse_graph(rest) {
+                    let mut b = purr::graph::Builder::new();
+                    let r = catch_unwind(AssertUnwindSafe(|| { let ok = purr::walk::walk(g, &mut b).is_ok(); let _ = b.build(); ok }));
+                    if r.is_err() { return fail(format!("traversal into a Builder (and build) panics at {}", imp::last_panic())) }
+                }
+                if let Some(g) = parse_graph(rest) {
+                    let mut w = purr::write::Writer::new();
+                    let r = catch_unwind(AssertUnwindSafe(|| { let _ = purr::walk::walk(g, &mut w); w.write().len() }));
+                    if r.is_err() { return fail(format!("traversal into a Writer (and write) panics at {}", imp::last_panic())) }
+                }
                 if let Some(g) = parse_graph(rest) {
                     for (i, a) in g.iter().enumerate() {
                         if catch_unwind(AssertUnwindSafe(|| (a.subvalence(), a.suppressed_hydrogens()))).is_err() {
@@ -601,6 +619,27 @@ impl<'a> Oracle<'a> {
 }
 
 /// the definition of a well-formed simple graph, written from the property text
+/// how many ring closures are open in an event list (a number is open after an odd number of occurrences)
+pub fn open_closures(events: &[Ev]) -> usize {
+    let mut open: Vec<usize> = Vec::new();
+    for e in events {
+        if let Ev::Join(_, n) = e {
+            if let Some(p) = open.iter().position(|x| x == n) { open.remove(p); } else { open.push(*n) }
+        }
+    }
+    open.len()
+}
+
+/// traverse `g` with a recording follower; Some(n) when the traversal panics, n = ring closures open in the events
+/// handed over before the panic (the exhausted pool of D17 has n >= 99; anything lower is a different defect)
+pub fn walk_panic_open(t: &Tables, g: Vec<purr::graph::Atom>) -> Option<usize> {
+    let mut rec = Rec::new(t);
+    match catch_unwind(AssertUnwindSafe(|| purr::walk::walk(g, &mut rec))) {
+        Err(_) => Some(open_closures(&rec.events)),
+        Ok(_) => None,
+    }
+}
+
 pub fn graph_defect(g: &[purr::graph::Atom]) -> Option<String> {
     let n = g.len();
     for (a, atom) in g.iter().enumerate() {
@@ -628,7 +667,7 @@ impl<'a> Oracle<'a> {
                 let r = catch_unwind(AssertUnwindSafe(|| purr::walk::walk(parse_graph(rest).unwrap(), &mut rec)));
                 match r {
                     Err(_) => {
-                        if defect.is_none() && imp::last_panic().contains("join_pool") { return "SKIP".to_string() } // more than 99 open closures (C06 / D17)
+                        if defect.is_none() && imp::last_panic().contains("join_pool") && open_closures(&rec.events) >= 99 { return "SKIP".to_string() } // at least 99 open closures (C06 / D17)
                         fail(format!("traversal panics at {}", imp::last_panic()))
                     }
                     Ok(Ok(())) => {
@@ -641,7 +680,19 @@ impl<'a> Oracle<'a> {
                         let mut b = purr::graph::Builder::new();
                         match catch_unwind(AssertUnwindSafe(|| read(&text, &mut b, None))) {
                             Ok(Ok(())) => match b.build() {
-                                Ok(g2) => if g2.len() != g.len() { fail(format!("written text {:?} builds {} atoms of {}", text, g2.len(), g.len())) } else { "OK".to_string() },
+                                Ok(g2) => if g2.len() != g.len() { fail(format!("written text {:?} builds {} atoms of {}", text, g2.len(), g.len())) } else {
+                                    // what was handed to the follower is the molecule itself, not an altered one
+                                    let (order, _) = dfs_order(&g);
+                                    let mut pi = vec![0usize; g.len()];
+                                    for (i, a) in order.iter().enumerate() { pi[*a] = i }
+                                    match self.iso_under(&g, &g2, &pi) {
+                                        Ok(()) => "OK".to_string(),
+                                        Err(m) => match self.iso_search(&g, &g2) {
+                                            Some(true) => "OK".to_string(),
+                                            _ => fail(format!("a successful traversal hands the follower an altered molecule (written {:?}): {}", text, m)),
+                                        },
+                                    }
+                                },
                                 Err(e) => fail(format!("written text {:?} does not build: {:?}", text, e)),
                             },
                             other => fail(format!("written text {:?} is not readable: {:?}", text, other.map_err(|_| "panic"))),
@@ -784,7 +835,7 @@ impl<'a> Oracle<'a> {
                 match catch_unwind(AssertUnwindSafe(|| purr::walk::walk(g, &mut rec))) {
                     Ok(Ok(())) => "OK".to_string(),
                     Ok(Err(e)) => fail(format!("{}: the traversal refuses a successfully built graph with {:?}", what, e)),
-                    Err(_) => if imp::last_panic().contains("join_pool") { "OK".to_string() } else { fail(format!("{}: the traversal panics on a built graph", what)) },
+                    Err(_) => if imp::last_panic().contains("join_pool") && open_closures(&rec.events) >= 99 { "OK".to_string() } else { fail(format!("{}: the traversal panics on a built graph at {} with {} closures open", what, imp::last_panic(), open_closures(&rec.events))) },
                 }
             }
             Err(purr::graph::Error::Rnum(i)) => {
@@ -792,7 +843,7 @@ impl<'a> Oracle<'a> {
                 "OK".to_string()
             }
             Err(purr::graph::Error::Join(a, bb)) => {
-                if !problems.contains(&(a, bb)) { return fail(format!("{}: build reports Join({}, {}), problematic closures are {:?}", what, a, bb, problems)) }
+                if !problems.contains(&(a, bb)) && !problems.contains(&(bb, a)) { return fail(format!("{}: build reports Join({}, {}), problematic closures are {:?}", what, a, bb, problems)) }
                 "OK".to_string()
             }
         }
@@ -874,6 +925,26 @@ fn dfs_order(g: &[purr::graph::Atom]) -> (Vec<usize>, Vec<Option<usize>>) {
     (order, parent)
 }
 
+/// a Writer that also counts the ring closures open in what it has been handed
+pub struct CountingWriter { pub w: purr::write::Writer, pub open: Vec<usize>, t: Tables }
+
+impl purr::walk::Follower for CountingWriter {
+    fn root(&mut self, k: AtomKind) { self.w.root(k) }
+    fn extend(&mut self, b: BondKind, k: AtomKind) { self.w.extend(b, k) }
+    fn pop(&mut self, d: usize) { self.w.pop(d) }
+    fn join(&mut self, b: BondKind, r: Rnum) {
+        let n: usize = rnum_s(&self.t, &r).parse().unwrap_or(usize::MAX);
+        if let Some(p) = self.open.iter().position(|x| *x == n) { self.open.remove(p); } else { self.open.push(n) }
+        self.w.join(b, r)
+    }
+}
+
+/// is this round-trip failure the known exhaustion of ring numbers (D17: at least 99 closures open)?
+pub fn is_pool_exhaustion(m: &str) -> bool {
+    if !(m.starts_with("PANIC") && m.contains("join_pool")) { return false }
+    match m.rsplit("open=").next().and_then(|x| x.trim().parse::<usize>().ok()) { Some(n) => n >= 99, None => false }
+}
+
 pub struct RoundTrip {
     pub text: String,
     pub g2: Vec<purr::graph::Atom>,
@@ -882,12 +953,13 @@ pub struct RoundTrip {
 impl<'a> Oracle<'a> {
     /// walk -> write -> read -> build on the real code
     fn round_trip(&self, g: Vec<purr::graph::Atom>) -> Result<RoundTrip, String> {
-        let mut w = purr::write::Writer::new();
-        match catch_unwind(AssertUnwindSafe(|| purr::walk::walk(g, &mut w))) {
+        let mut cw = CountingWriter { w: purr::write::Writer::new(), open: Vec::new(), t: Tables::new() };
+        match catch_unwind(AssertUnwindSafe(|| purr::walk::walk(g, &mut cw))) {
             Ok(Ok(())) => {}
             Ok(Err(e)) => return Err(format!("walk refuses the graph: {:?}", e)),
-            Err(_) => return Err(format!("PANIC {}", imp::last_panic())),
+            Err(_) => return Err(format!("PANIC {} open={}", imp::last_panic(), cw.open.len())),
         }
+        let w = cw.w;
         let text = w.write();
         let mut b = purr::graph::Builder::new();
         match catch_unwind(AssertUnwindSafe(|| read(&text, &mut b, None))) {
@@ -969,7 +1041,7 @@ impl<'a> Oracle<'a> {
         let copy: Vec<purr::graph::Atom> = g.iter().map(|a| purr::graph::Atom { kind: parse_kind(&kind_s(self.t, &a.kind)).unwrap(), bonds: a.bonds.iter().map(|b| Bond::new(b.kind.clone(), b.tid)).collect() }).collect();
         let rt = match self.round_trip(copy) {
             Ok(rt) => rt,
-            Err(m) => { if m.starts_with("PANIC") && m.contains("join_pool") { return "SKIP".to_string() } return fail(format!("{}: {}", what, m)) }
+            Err(m) => { if is_pool_exhaustion(&m) { return "SKIP".to_string() } return fail(format!("{}: {}", what, m)) }
         };
         let mut pi = vec![0usize; g.len()];
         for (i, a) in order.iter().enumerate() { pi[*a] = i }
@@ -978,7 +1050,7 @@ impl<'a> Oracle<'a> {
             Err(m) => match self.iso_search(&g, &rt.g2) {
                 Some(true) => "OK".to_string(), // same molecule, different atom order: C12's concern, not C01's
                 Some(false) => fail(format!("{}: written as {:?}, which builds a different molecule: {}", what, rt.text, m)),
-                None => "SKIP".to_string(),
+                None => fail(format!("{}: written as {:?}; the atoms do not correspond in visit order ({}) and no other correspondence was found within the search limit", what, rt.text, m)),
             },
         }
     }
@@ -1004,7 +1076,7 @@ impl<'a> Oracle<'a> {
         if g.is_empty() || graph_defect(&g).is_some() { return "SKIP".to_string() }
         let (order, parent) = dfs_order(&g);
         let copy: Vec<purr::graph::Atom> = g.iter().map(|a| purr::graph::Atom { kind: parse_kind(&kind_s(t, &a.kind)).unwrap(), bonds: a.bonds.iter().map(|b| Bond::new(b.kind.clone(), b.tid)).collect() }).collect();
-        let rt = match self.round_trip(copy) { Ok(rt) => rt, Err(m) => { if m.starts_with("PANIC") && m.contains("join_pool") { return "SKIP".to_string() } return fail(format!("{}: {}", what, m)) } };
+        let rt = match self.round_trip(copy) { Ok(rt) => rt, Err(m) => { if is_pool_exhaustion(&m) { return "SKIP".to_string() } return fail(format!("{}: {}", what, m)) } };
         if rt.g2.len() != g.len() { return fail(format!("{}: {} atoms became {}", what, g.len(), rt.g2.len())) }
         let mut pi = vec![0usize; g.len()];
         for (i, a) in order.iter().enumerate() { pi[*a] = i }
@@ -1041,7 +1113,7 @@ impl<'a> Oracle<'a> {
         if g.is_empty() || graph_defect(&g).is_some() { return "SKIP".to_string() }
         let (order, _) = dfs_order(&g);
         let copy: Vec<purr::graph::Atom> = g.iter().map(|a| purr::graph::Atom { kind: parse_kind(&kind_s(t, &a.kind)).unwrap(), bonds: a.bonds.iter().map(|b| Bond::new(b.kind.clone(), b.tid)).collect() }).collect();
-        let rt = match self.round_trip(copy) { Ok(rt) => rt, Err(m) => { if m.starts_with("PANIC") && m.contains("join_pool") { return "SKIP".to_string() } return fail(format!("{}: {}", what, m)) } };
+        let rt = match self.round_trip(copy) { Ok(rt) => rt, Err(m) => { if is_pool_exhaustion(&m) { return "SKIP".to_string() } return fail(format!("{}: {}", what, m)) } };
         if rt.g2.len() != g.len() { return "SKIP".to_string() } // C01's concern
         let mut pi = vec![0usize; g.len()];
         for (i, a) in order.iter().enumerate() { pi[*a] = i }
@@ -1142,7 +1214,7 @@ impl<'a> Oracle<'a> {
     fn c14_graph(&self, mk: &dyn Fn() -> Vec<purr::graph::Atom>, what: &str) -> String {
         let g = mk();
         if g.is_empty() || graph_defect(&g).is_some() { return "SKIP".to_string() }
-        let rt = match self.round_trip(g) { Ok(rt) => rt, Err(m) => { if m.starts_with("PANIC") && m.contains("join_pool") { return "SKIP".to_string() } return fail(format!("{}: {}", what, m)) } };
+        let rt = match self.round_trip(g) { Ok(rt) => rt, Err(m) => { if is_pool_exhaustion(&m) { return "SKIP".to_string() } return fail(format!("{}: {}", what, m)) } };
         // determinism: the same adjacency list written again, in this thread and in fresh threads
         for round in 0..3 {
             let g = mk();
